@@ -5,6 +5,7 @@ import (
 	"fmt"
 	"net"
 	"strings"
+	"sync"
 	"time"
 
 	"github.com/codelaboratoryltd/bng/pkg/allocator"
@@ -36,8 +37,8 @@ type adapter interface {
 	create(e string, mac, ip int) error
 	update(e string, mac, ip int) error // replace the record of e by one with these keys
 	remove(e string) error
-	primary(e string) (mac, ip int, ok bool)   // what the primary record of e says (-1 = no such key)
-	byMAC(mac int) (e string, state string)    // state: "none" | "ok" | "dangling" (index entry without a primary record)
+	primary(e string) (mac, ip int, ok bool) // what the primary record of e says (-1 = no such key)
+	byMAC(mac int) (e string, state string)  // state: "none" | "ok" | "dangling" (index entry without a primary record)
 	byIP(ip int) (e string, state string)
 	dump() string
 }
@@ -65,9 +66,12 @@ type idxSys struct {
 	name  string
 	last  string // name of the last operation (site prefix of the state invariants)
 	viols []explore.Viol
+	bk    sync.Mutex // harness bookkeeping only (free-running -race pass)
 }
 
 func (s *idxSys) v(kind, site, f string, a ...any) {
+	s.bk.Lock()
+	defer s.bk.Unlock()
 	s.viols = append(s.viols, explore.Viol{Kind: kind, Site: site, Detail: fmt.Sprintf(f, a...)})
 }
 
@@ -129,7 +133,9 @@ func (s *idxSys) Ops() []string {
 
 func (s *idxSys) Apply(op string) string {
 	name, args := argsOf(op)
+	s.bk.Lock()
 	s.last = name
+	s.bk.Unlock()
 	var m, i int
 	if len(args) == 3 {
 		fmt.Sscan(args[1], &m)
@@ -438,16 +444,22 @@ func (a *subMgr) dump() string {
 
 // ----- allocator.MemoryAllocationStore (by-IP only) ----------------------------
 
-type memStore struct{ s *allocator.MemoryAllocationStore }
+type memStore struct {
+	s *allocator.MemoryAllocationStore
+}
 
 func (a *memStore) hasMAC() bool       { return false }
 func (a *memStore) canUpdateMAC() bool { return false }
 func (a *memStore) rec(e string, i int) allocator.AllocationRecord {
 	return allocator.AllocationRecord{SubscriberID: e, PoolID: "p", Prefix: &net.IPNet{IP: xIPs[i], Mask: net.CIDRMask(32, 32)}}
 }
-func (a *memStore) create(e string, m, i int) error { return a.s.SaveAllocation(context.Background(), a.rec(e, i)) }
-func (a *memStore) update(e string, m, i int) error { return a.s.SaveAllocation(context.Background(), a.rec(e, i)) }
-func (a *memStore) remove(e string) error           { return a.s.RemoveAllocation(context.Background(), "p", e) }
+func (a *memStore) create(e string, m, i int) error {
+	return a.s.SaveAllocation(context.Background(), a.rec(e, i))
+}
+func (a *memStore) update(e string, m, i int) error {
+	return a.s.SaveAllocation(context.Background(), a.rec(e, i))
+}
+func (a *memStore) remove(e string) error { return a.s.RemoveAllocation(context.Background(), "p", e) }
 func (a *memStore) primary(e string) (int, int, bool) {
 	rs, _ := a.s.GetBySubscriber(context.Background(), e)
 	ps, _ := a.s.GetByPool(context.Background(), "p")
